@@ -24,6 +24,7 @@ type Eval struct {
 	bind   map[string]Value
 	bindT  map[string]types.Type
 	callee bool
+	hook   bool // line hook: identifiers are current values of locals
 	inOld  bool
 	// fresh(x) means "allocated at or after this frontier": the call-time frontier when a callee's
 	// postcondition is assumed, the entry frontier of the function under verification otherwise
@@ -139,6 +140,9 @@ func (ev *Eval) eval(e ast.Expr) Value {
 
 func (ev *Eval) boolOf(e ast.Expr) Term {
 	v := ev.eval(e)
+	if _, u := v.(*UndefV); u {
+		return ev.x.global("undef@bool", SBool)
+	}
 	p, ok := v.(*Prim)
 	if !ok || p.T.Sort != SBool {
 		ev.fail("not a boolean: %s", exprString(e))
@@ -160,7 +164,7 @@ func (ev *Eval) ident(name string) Value {
 	}
 	if !ev.callee && ev.fr != nil {
 		// entry values of parameters in pre/postconditions and inside old()
-		if ev.loop == nil || ev.inOld {
+		if (ev.loop == nil && !ev.hook) || ev.inOld {
 			for _, p := range ev.fr.fn.Params {
 				if p.Name() == name {
 					return ev.fr.env[p]
@@ -258,6 +262,9 @@ func (ev *Eval) selector(n *ast.SelectorExpr) Value {
 		}
 	}
 	base := ev.eval(n.X)
+	if _, u := base.(*UndefV); u {
+		return base
+	}
 	return ev.field(base, n.Sel.Name, exprString(n))
 }
 
@@ -286,6 +293,9 @@ func (ev *Eval) localIdentUnknown(string) bool { return true }
 
 func (ev *Eval) field(base Value, name string, src string) Value {
 	x := ev.x
+	if _, u := base.(*UndefV); u {
+		return base
+	}
 	// ghost field?
 	if g, ok := x.prog.cs.Ghosts[name]; ok {
 		var ref Term
@@ -464,7 +474,7 @@ func (ev *Eval) sliceExpr(n *ast.SliceExpr) Value {
 	if n.High != nil {
 		hi = ev.term(n.High)
 	}
-	return &SliceV{Ptr: base.Ptr, Off: Add(base.Off, lo), Len: Sub(hi, lo), Cap: Sub(base.Cap, lo), Elem: base.Elem}
+	return &SliceV{Ptr: base.Ptr, Off: SidxOff(base.Off, lo), Len: Sub(hi, lo), Cap: Sub(base.Cap, lo), Elem: base.Elem}
 }
 
 func litToFloat(t Term) (Term, bool) {
@@ -482,6 +492,12 @@ func (ev *Eval) binary(n *ast.BinaryExpr) Value {
 		return &Prim{T: Or(ev.boolOf(n.X), ev.boolOf(n.Y))}
 	}
 	a, b := ev.eval(n.X), ev.eval(n.Y)
+	if _, u := a.(*UndefV); u {
+		return &Prim{T: ev.x.global("undef@bool", SBool)}
+	}
+	if _, u := b.(*UndefV); u {
+		return &Prim{T: ev.x.global("undef@bool", SBool)}
+	}
 	if n.Op == token.EQL || n.Op == token.NEQ {
 		pa, oka := a.(*Prim)
 		pb, okb := b.(*Prim)
@@ -584,7 +600,14 @@ func (ev *Eval) quant(kind string, args []ast.Expr) Value {
 	if !ok {
 		ev.fail("%s: bound variable expected", kind)
 	}
-	lo, hi := ev.term(args[1]), ev.term(args[2])
+	unbounded := false
+	if li, ok := args[1].(*ast.Ident); ok && li.Name == "ALL" {
+		unbounded = true
+	}
+	var lo, hi Term
+	if !unbounded {
+		lo, hi = ev.term(args[1]), ev.term(args[2])
+	}
 	ev.qn++
 	ev.x.fresh++
 	qv := Term{fmt.Sprintf("%s!q%d", id.Name, ev.x.fresh), SInt}
@@ -596,7 +619,10 @@ func (ev *Eval) quant(kind string, args []ast.Expr) Value {
 	} else {
 		delete(ev.bind, id.Name)
 	}
-	rng := And(Le(lo, qv), Lt(qv, hi))
+	rng := TTrue
+	if !unbounded {
+		rng = And(Le(lo, qv), Lt(qv, hi))
+	}
 	if kind == "forall" && body.S == "true" {
 		return &Prim{T: TTrue}
 	}
@@ -685,6 +711,14 @@ func (ev *Eval) callExpr(n *ast.CallExpr) Value {
 			return &Prim{T: ft}
 		}
 		return &Prim{T: app(SF64, "f_of_int", t)}
+	case "store":
+		a := ev.term(n.Args[0])
+		i := ev.term(n.Args[1])
+		v := ev.term(n.Args[2])
+		return &Prim{T: Store(a, i, v)}
+	case "constseq":
+		v := ev.term(n.Args[0])
+		return &Prim{T: ConstArr(v.Sort, v)}
 	case "nan":
 		return &Prim{T: F64Bits(0x7FF8000000000001)}
 	case "inf":
@@ -700,9 +734,11 @@ func (ev *Eval) callExpr(n *ast.CallExpr) Value {
 		return &Prim{T: app(SBool, "f_isstale", ev.fterm(n.Args[0]))}
 	case "feq":
 		return &Prim{T: app(SBool, "f_eq", ev.fterm(n.Args[0]), ev.fterm(n.Args[1]))}
-	case "fresh":
+	case "fresh", "callerfresh":
+		// callerfresh: allocated since the function under verification was entered, also when
+		// used inside a callee's contract (where fresh means "allocated by the callee")
 		fc := &FuncCtx{alloc0: x.curFunc.alloc0}
-		if ev.freshBase != nil {
+		if ev.freshBase != nil && name == "fresh" {
 			fc.alloc0 = *ev.freshBase
 		}
 		var cs []Term
@@ -819,7 +855,7 @@ func (ev *Eval) callExpr(n *ast.CallExpr) Value {
 		res, okc := ev.st.callResult(ev.fr.id, key, int(nn))
 		if !okc || res == nil {
 			// no such call on this path: an unconstrained value (only usable under a false guard)
-			return &IfaceV{Tag: x.global("undef@tag", SInt), Data: x.global("undef@data", SInt)}
+			return &UndefV{}
 		}
 		if len(n.Args) == 3 {
 			i, _ := isIntLit(ev.term(n.Args[2]))
